@@ -43,7 +43,7 @@ NUMERIC = {
     "response-const-16": ("p2", "session", "positive response parameter 'p2'", "Value"),
     "response-byte-position": ("ypos", "read", "positive response parameter 'y'", "Byte position"),
 }
-RANGE = {"mark": (0, 255), "chk": (0, 255), "p2": (0, 65535), "ypos": (3, 4)}
+RANGE = {"mark": (0, 255), "chk": (0, 255), "p2": (0, 65535), "ypos": (0, 5)}
 
 
 def _edit_structural(spec, kind):
@@ -71,6 +71,12 @@ def _edit_structural(spec, kind):
     if kind == "linked-dop":
         sv["read"]["request"]["params"][2]["dop"] = {"dt": "A_INT32", "bl": 8}
         return "read", ("request parameter 'x'", "Linked DOP object")
+    if kind == "byte-position-removed":
+        sv["read"]["pos"][0]["params"][2].pop("bytepos")
+        return "read", ("positive response parameter 'y'", "Byte position")
+    if kind == "byte-position-added":
+        sv["session"]["pos"][0]["params"][1]["bytepos"] = 1
+        return "session", ("positive response parameter 'kind'", "Byte position")
     if kind == "default-value":
         sv["session"]["request"]["params"][1]["default"] = 4
         return "session", ("request parameter 'kind'", "Default value")
@@ -84,7 +90,8 @@ def _edit_structural(spec, kind):
 
 
 STRUCTURAL = ["add-service", "delete-service", "rename-service", "bit-length", "const-bit-length",
-              "data-type", "linked-dop", "semantic", "negative-response-values", "default-value"]
+              "data-type", "linked-dop", "semantic", "negative-response-values", "default-value",
+              "byte-position-removed", "byte-position-added"]
 
 
 def build_none(cfg):
@@ -234,11 +241,15 @@ def run_overview(sx, cfg, env):
     sx.assume(sel == 0)
     n = cfg["n"]
     names = ["CP_Baudrate", "CP_TesterPresentTime", "CP_CanFuncReqId", "CP_BlockSize"][:n]
+    own = [{"cp": x, "value": "7", "protocol": None} for x in names[1:]]
+    if cfg.get("qualified"):
+        # the same parameters once more, qualified for the protocol: one more visible definition each
+        own += [{"cp": x, "value": "9", "protocol": "P1"} for x in names[:cfg["qualified"]]]
+        n += cfg["qualified"]
     spec = {"specs": [{"name": x, "default": "1"} for x in names] or [{"name": "CP_X", "default": "1"}],
             "layers": [{"name": "P1", "type": "protocol", "parents": [],
                         "comparams": [{"cp": x, "value": "5", "protocol": None} for x in names[:1]]},
-                       {"name": "EV", "type": "ecu-variant", "parents": ["P1"],
-                        "comparams": [{"cp": x, "value": "7", "protocol": None} for x in names[1:]]}]}
+                       {"name": "EV", "type": "ecu-variant", "parents": ["P1"], "comparams": own}]}
     layer = H.build_hierarchy(spec)["layers"]["EV"]
     seen = []
     real = pu.rich_print
@@ -282,6 +293,9 @@ def configs(tier, seed):
         out.append({"id": f"database/{e}", "harness": "database", "edit": e, "build": {}})
     for n in (0, 1, 3, 4):
         out.append({"id": f"overview/{n}-comparams", "harness": "overview", "n": n, "build": {}})
+    for q in (1, 2):
+        out.append({"id": f"overview/3-comparams-{q}-qualified", "harness": "overview", "n": 3,
+                    "qualified": q, "build": {}})
     return out
 
 
@@ -294,5 +308,7 @@ ASSUMPTIONS = [
     "an edit of a constant inside the request's constant prefix (SID / DID) is outside the catalogue: the tool "
     "identifies services across versions by that prefix, so such an edit is by construction another service",
     "the layer overview of the list tool (counts) has no value dimension: concrete witnesses (0, 1, 3, 4 "
-    "communication parameters), rendering intercepted at rich_print",
+    "communication parameters, also with protocol-qualified definitions of the same parameters), rendering "
+    "intercepted at rich_print; 'number of communication parameters' = number of visible definitions, one "
+    "per parameter and protocol (the layer's comparam_refs)",
 ]
